@@ -240,11 +240,13 @@ parsec_dtd_ordering_correctly( parsec_execution_stream_t *es,
             desc_op_type = (FLOW_OF(current_desc, desc_flow_index)->op_type & PARSEC_GET_OP_TYPE);
 
             int get_out = 0, tmp_desc_flow_index, release_parent = 0;
+            int reader_counted;
             parsec_dtd_task_t *nextinline = current_desc;
 
             do {
                 tmp_desc_flow_index = desc_flow_index;
                 current_desc = nextinline;
+                reader_counted = 0;
                 assert(NULL != current_desc);
                 /* Forward the data to each successor */
                 if(action_mask & PARSEC_ACTION_RELEASE_LOCAL_DEPS) {
@@ -280,6 +282,13 @@ parsec_dtd_ordering_correctly( parsec_execution_stream_t *es,
                         }
                     } else {
                         if(action_mask & PARSEC_ACTION_RELEASE_LOCAL_DEPS) {
+                            /* Count this reader BEFORE the end of the chain is published as not alive:
+                             * a writer inserted right after the publication is activated at once and
+                             * must find the reader in the count. */
+                            if( !reader_counted && parsec_dtd_task_is_local(current_desc) ) {
+                                parsec_dtd_data_copy_reader_retain(current_task->super.data[current_dep].data_out);
+                                reader_counted = 1;
+                            }
                             /* Make sure there is no nextinline */
                             if( made_sure_nextinline_is_null(current_desc, desc_flow_index) ) {
                             } else {
@@ -290,7 +299,7 @@ parsec_dtd_ordering_correctly( parsec_execution_stream_t *es,
                     }
 
                     if(action_mask & PARSEC_ACTION_RELEASE_LOCAL_DEPS) {
-                        if(parsec_dtd_task_is_local(current_desc)){
+                        if(!reader_counted && parsec_dtd_task_is_local(current_desc)){
                            parsec_dtd_data_copy_reader_retain(current_task->super.data[current_dep].data_out);
                         }
                     }
